@@ -1,10 +1,40 @@
 package agreement
 
-// C02 part (i) - Honest nodes never equivocate, even across crashes (state-machine level).
-// (header completed below)
+// C02 part (i) - Honest nodes never equivocate, even across crashes: state-machine level.
+// (Part (ii), the real agreement.Service with its pseudonode / persistence loop / crash database, is a
+// separate check part written elsewhere; THIS part cannot see a change in actions.go / pseudonode.go /
+// service.go that releases a vote early, because the node shell re-implements that glue.)
+//
+// Engine E-AGR (common_eagr_*_test.go), lock-step explorer with the loopback queue NOT atomic: after an
+// attest action the shell takes the encode() snapshot (as Service.persistState does), then "persist"
+// (disk write + checkpointEvent) and the release of each vote are separate schedulable steps, so a
+// crash can fall before the snapshot reaches the disk, after it but before any vote is released, and
+// after the release. Crash-restart = the two branches of Service.mainLoop (decode(disk) if its round
+// is current, else a fresh player at ledger.NextRound()), followed by the re-execution of the restored
+// pending actions with Service.persistRouter/persistStatus/persistActions still zero, as in the code.
+// Enumerated: 3 honest nodes (threshold 2 of 3), 3 proposers or 1, one round, periods <= 1: ALL
+// executions with <= 2 crash-restarts placed at every decision point of the synchronous schedule
+// (quick: total <= 2 deviations for 3 proposers, <= 3 for 1 proposer; further deviation kinds: one
+// lost message, one message held back past a timeout).
+// Oracle (ghost state per account that survives restarts, part of the canonical state): the votes
+// released through the loopback by an account contain at most one value per (round, period, step),
+// proposal-votes included. A panic inside submitTop is a violation.
+//
+// FINDING on the unchanged tree (genuine, reproduced with the real Service by the plain unit test in
+// /verif/findings/C02-restart-overwrites-crash-state/): after a restart the replay of a restored
+// attest action overwrites the crash database with an EMPTY state; a second crash then starts a fresh
+// player that votes again in a slot it already voted in (key C02:equivocation-after-restart:
+// crash-state-overwritten-by-restart). Every other equivocation has a different key.
+//
+// Mutants (bin/mut, quick tier, run with the finding listed as known):
+//   DETECTED  actions.go pseudonodeAction.persistent() returns false for attest (the shell uses the real
+//             persistent(): the snapshot is then the pre-vote/empty state): honest accounts re-vote after ONE
+//             crash; shows as the contract panic "more than value reached a threshold" in voteTracker.
+//   DETECTED  msgp_gen.go player "Round" not restored: equivocation after one crash-restart (key ...:other).
 
 import (
 	"fmt"
+	"strings"
 	"testing"
 
 	ve "github.com/algorand/go-algorand/verifeng"
@@ -35,12 +65,17 @@ func TestVerif_C02_statemachine(t *testing.T) {
 				return
 			}
 			for _, m := range out.equivoc {
-				r.Report("C02:equivocation-after-restart", fmt.Sprintf("[%s] after %v: %s", b.name, e, m), eagrReplayOf(b, path))
+				cls, msg, _ := strings.Cut(m, "|")
+				r.Report("C02:equivocation-after-restart:"+cls, fmt.Sprintf("[%s] after %v: %s", b.name, e, msg), eagrReplayOf(b, path))
 			}
 			for _, uv := range out.released {
 				r.Class(fmt.Sprintf("%s/released/p%d/s%d", b.name, uv.R.Period, uv.R.Step))
 			}
 		},
-		rule: "under construction.",
+		rule: "Real player+rootRouter of 3 honest nodes; loopback (persist, vote release) as separate steps; every execution with <=2 crash-restarts at every decision point (+<=1 lost/late message); per account the votes released before and after restarts hold at most one value per (round, period, step).",
+		assume: []string{
+			"part (i) only: the node shell re-implements Service.do / pseudonode / persistState / mainLoop restore; part (ii) (real Service) is a separate part of this check",
+			"crash = loss of all volatile state at a decision point; the disk holds the last snapshot whose persist step was executed (no torn writes)",
+		},
 	})
 }
